@@ -284,6 +284,37 @@ class Scheduler:
         return self.trace.hexdigest()[:16]
 
 
+def yielding_fields(cls, names):
+    """Subclass of `cls` whose listed instance attributes are data descriptors that make every READ and WRITE a yield
+    point of the active scheduler. This brings the scheduler inside single statements such as `self.n += 1` (load, add,
+    store) exactly at the shared-field accesses, i.e. where a preemption between bytecodes matters; Python does not promise
+    atomicity of such a statement, so every interleaving produced this way is one the language permits."""
+    ns = {}
+    for name in names:
+        slot = "_yf_" + name
+
+        def getter(self, _slot=slot, _name=name):
+            s = _ACTIVE
+            if s is not None:
+                me = s.index.get(threading.get_ident())
+                if me is not None:
+                    s.yield_point(me, "read:" + _name, 0)
+            try:
+                return self.__dict__[_slot]
+            except KeyError:
+                raise AttributeError(_name) from None
+
+        def setter(self, value, _slot=slot, _name=name):
+            s = _ACTIVE
+            if s is not None:
+                me = s.index.get(threading.get_ident())
+                if me is not None:
+                    s.yield_point(me, "write:" + _name, 0)
+            self.__dict__[_slot] = value
+        ns[name] = property(getter, setter)
+    return type("Yielding" + cls.__name__, (cls,), ns)
+
+
 # ---- policies -----------------------------------------------------------------------
 class RandomPolicy:
     def __init__(self, rng, p):
